@@ -156,6 +156,18 @@ def main():
             replay_key = json.load(fh)['key']
     ctx = Ctx(pid, args.tier, seed, replay_key)
     broken = None
+    # wall-clock watchdog: the rules interpret thousands of small cases; an unexpected program shape that makes one of them explode must
+    # end in a verdict (fail closed), not in a check that never returns.  Normal run times are seconds (quick) to minutes (thorough).
+    import signal
+
+    class Watchdog(Exception):
+        pass
+
+    def _alarm(signum, frame):
+        raise Watchdog()
+    limit = int(os.environ.get('EVX_WATCHDOG_S', '900' if args.tier == 'quick' else '5400'))
+    signal.signal(signal.SIGALRM, _alarm)
+    signal.alarm(limit)
     try:
         mod = importlib.import_module('rules.' + pid.lower())
         try:
@@ -166,12 +178,15 @@ def main():
             ctx.violation('anchor', str(e), 'missing', 'anchor definition `%s` not found in the crate (rule cannot be evaluated; fail closed)' % e, kind='unrecognised')
         except extract.ExtractError as e:
             broken = 'extraction failed: %s' % e
+        except Watchdog:
+            ctx.violation('checker', 'watchdog', 'timeout', 'rule evaluation did not finish within %d s on this tree (path explosion on an unexpected program shape; fail closed)' % limit, kind='unrecognised')
         except Exception:
             tb = traceback.format_exc()
             # an analysis crash on an unexpected program shape fails closed as an unrecognised construct
             ctx.violation('checker', 'exception', 'crash', 'rule evaluation raised an exception on this tree (unexpected program shape; fail closed)', kind='unrecognised', traceback=tb)
             sys.stderr.write(tb)
     finally:
+        signal.alarm(0)
         ctx.close()
     if broken:
         print('CHECK-BROKEN property=%s %s' % (pid, broken))
